@@ -1,16 +1,16 @@
 #ifndef __STDATOMIC_H
 #define __STDATOMIC_H
 
-#define ATOMIC_BOOL_LOCK_FREE 1
-#define ATOMIC_CHAR_LOCK_FREE 1
-#define ATOMIC_CHAR16_T_LOCK_FREE 1
-#define ATOMIC_CHAR32_T_LOCK_FREE 1
-#define ATOMIC_WCHAR_T_LOCK_FREE 1
-#define ATOMIC_SHORT_LOCK_FREE 1
-#define ATOMIC_INT_LOCK_FREE 1
-#define ATOMIC_LONG_LOCK_FREE 1
-#define ATOMIC_LLONG_LOCK_FREE 1
-#define ATOMIC_POINTER_LOCK_FREE 1
+#define ATOMIC_BOOL_LOCK_FREE 2
+#define ATOMIC_CHAR_LOCK_FREE 2
+#define ATOMIC_CHAR16_T_LOCK_FREE 2
+#define ATOMIC_CHAR32_T_LOCK_FREE 2
+#define ATOMIC_WCHAR_T_LOCK_FREE 2
+#define ATOMIC_SHORT_LOCK_FREE 2
+#define ATOMIC_INT_LOCK_FREE 2
+#define ATOMIC_LONG_LOCK_FREE 2
+#define ATOMIC_LLONG_LOCK_FREE 2
+#define ATOMIC_POINTER_LOCK_FREE 2
 
 typedef enum {
   memory_order_relaxed,
@@ -21,7 +21,8 @@ typedef enum {
   memory_order_seq_cst,
 } memory_order;
 
-#define ATOMIC_FLAG_INIT(x) (x)
+#define ATOMIC_FLAG_INIT 0
+#define ATOMIC_VAR_INIT(x) (x)
 #define atomic_init(addr, val) (*(addr) = (val))
 #define kill_dependency(x) (x)
 #define atomic_thread_fence(order)
@@ -67,6 +68,12 @@ typedef enum {
 #define atomic_compare_exchange_strong(p, old, new) \
   __builtin_compare_and_swap((p), (old), (new))
 
+#define atomic_compare_exchange_weak_explicit(p, old, new, succ, fail) \
+  __builtin_compare_and_swap((p), (old), (new))
+
+#define atomic_compare_exchange_strong_explicit(p, old, new, succ, fail) \
+  __builtin_compare_and_swap((p), (old), (new))
+
 #define atomic_exchange(obj, val) __builtin_atomic_exchange((obj), (val))
 #define atomic_exchange_explicit(obj, val, order) __builtin_atomic_exchange((obj), (val))
 
@@ -101,10 +108,10 @@ typedef _Atomic long atomic_int_least64_t;
 typedef _Atomic unsigned long atomic_uint_least64_t;
 typedef _Atomic signed char atomic_int_fast8_t;
 typedef _Atomic unsigned char atomic_uint_fast8_t;
-typedef _Atomic short atomic_int_fast16_t;
-typedef _Atomic unsigned short atomic_uint_fast16_t;
-typedef _Atomic int atomic_int_fast32_t;
-typedef _Atomic unsigned int atomic_uint_fast32_t;
+typedef _Atomic long atomic_int_fast16_t;
+typedef _Atomic unsigned long atomic_uint_fast16_t;
+typedef _Atomic long atomic_int_fast32_t;
+typedef _Atomic unsigned long atomic_uint_fast32_t;
 typedef _Atomic long atomic_int_fast64_t;
 typedef _Atomic unsigned long atomic_uint_fast64_t;
 typedef _Atomic long atomic_intptr_t;
